@@ -5,7 +5,7 @@ import ast
 
 from sa.report import Cx
 from sa.walker import WalkOptions
-from sa.terms import (Sym, Attr, Sub, App, Fresh, TupleT, Const, CompInfo, FTrue, AEq, AIsInst, f_not, implies, mk_cmp)
+from sa.terms import (Sym, Attr, Sub, App, Fresh, TupleT, Const, CompInfo, FTrue, AEq, AIsInst, ATruthy, f_not, implies, mk_cmp, atoms_of)
 from .common import BATCH, list_facts, _loop_stage_table, check_atomic, check_keyed_insert, check_keyed_delete, check_pure, order_class, strip_versions
 
 PID = 'C14'
@@ -292,8 +292,40 @@ def check_declaration(cx: Cx):
                 break
         if not okc:
             break
+    # a constructor that copies the dictionary in one go (update / dict(parameters)) must have established that EVERY key is a
+    # str: `all(type(k) == str for k in parameters)` - a search for "the first offending key" that uses None as its not-found
+    # answer accepts a dictionary whose first offending key is None
+    src_p = Sym(pinit.params[1]) if len(pinit.params) > 1 else None
+    for p in cx.walker.paths(pinit, WalkOptions(unroll=1, callee_raises=False)):
+        if p.end == 'raise' or not okc:
+            continue
+        bulk = [e for e in p.events if e.kind == 'store' and e.data.get('loc') == LOC and e.data.get('store') in ('update', 'rebind')
+                and src_p is not None and any(y == src_p for y in __import__('sa.terms', fromlist=['subterms_of']).subterms_of(
+                    e.data.get('value') if e.data.get('store') == 'rebind' else (e.data.get('args') or (e.data.get('value'),))))]
+        if not bulk:
+            continue
+        ni += 1
+        good = False
+        for a in atoms_of(p.cond):
+            t_ = getattr(a, 't', None)
+            if isinstance(a, ATruthy) and isinstance(t_, App) and t_.fn == 'all' and t_.args and implies(p.cond, a) is None:
+                d_ = getattr(t_.args[0], 'detail', None)
+                if d_ is not None and len(d_.gens) == 1 and strip_versions(d_.gens[0][1]) in (src_p, App('.keys', (src_p,))) and not d_.gens[0][2]:
+                    v_ = d_.gens[0][0]
+                    from sa.terms import BoolT as _B
+                    if isinstance(d_.elt, _B) and d_.elt.f in (AEq(App('type', (v_,)), Sym('str')), AIsInst(v_, Sym('str'))):
+                        good = True
+        if not good:
+            okc = False
+            cx.violation('R-GUARD', pinit.qualname, 'constructor-rejects-non-string-names',
+                         f"ParameterList.__init__ copies the dictionary in one step on a path [{p.cond!r}] that has not established that every "
+                         f"key is a str (all(type(k) == str for k in parameters)): a dictionary with a non-string name is accepted",
+                         where=cx.where(pinit, bulk[0].line), path=p.lines())
     if okc and ni:
         cx.ok('R-GUARD', 'constructor declares every (string-keyed) entry exactly as given', where=cx.where(pinit), function=pinit.qualname)
+    elif okc:
+        cx.inconclusive('R-GUARD', 'ParameterList.__init__', 'no per-entry store and no bulk copy of the constructor dictionary was recognised',
+                        where=cx.where(pinit), function=pinit.qualname)
     sites = cx.effects.sites_of(LOC)
     allowed = {PL + '.__init__', addp.qualname, remp.qualname}
     for s in sites:
